@@ -181,7 +181,7 @@ def resume_on(base, fs, refd):
         tb = traceback.extract_tb(e.__traceback__)
         where = next((f"{os.path.basename(f.filename)}:{f.name}" for f in reversed(tb)
                       if "/nifty/" in f.filename), "?")
-        return {"oracle": "resume-raised", "exc": type(e).__name__}, f"{type(e).__name__}: {e} @ {where}"
+        return {"oracle": "resume-raised", "exc": type(e).__name__, "where": where}, f"{type(e).__name__}: {e} @ {where}"
     if dg != refd:
         return {"oracle": "resume-result-differs"}, "final samples/mean differ from the uninterrupted run"
     return None, ""
@@ -351,7 +351,8 @@ def replay(path):
     if sig is None:
         print("replay: property holds on this tree for the recorded crash point")
         return harness.EXIT_OK
-    print(f"VIOLATION property={PROP} replay={path}" + ("" if sig == rec else "  (different signature)"))
+    same = {k: v for k, v in sig.items() if k in ("oracle", "exc")} == rec
+    print(f"VIOLATION property={PROP} replay={path}" + ("" if same else "  (different signature)"))
     return harness.EXIT_VIOLATION
 
 
